@@ -105,7 +105,7 @@ func contractFilesUnder(repo string) (map[string]string, error) {
 		if err != nil {
 			return nil
 		}
-		if !info.IsDir() && info.Name() == "zz_verif_contracts.go" {
+		if !info.IsDir() && strings.HasPrefix(info.Name(), "zz_verif_contracts") && strings.HasSuffix(info.Name(), ".go") {
 			rel, _ := filepath.Rel(repo, filepath.Dir(p))
 			out[p] = repoModule + "/" + filepath.ToSlash(rel)
 		}
@@ -153,8 +153,13 @@ func RunCheck(opt *Options) (*CheckReport, error) {
 		return nil
 	})
 	sort.Strings(specFiles)
+	lenient := os.Getenv("VERIF_LENIENT") != ""
 	for _, f := range specFiles {
 		if err := cs.ParseFile(f, ""); err != nil {
+			if lenient {
+				fmt.Println("warning (VERIF_LENIENT): skipping rest of spec file:", err)
+				continue
+			}
 			return nil, err
 		}
 	}
@@ -178,6 +183,10 @@ func RunCheck(opt *Options) (*CheckReport, error) {
 			return nil, err
 		}
 		if err := cs.ParseText(p, string(data), cfiles[p]); err != nil {
+			if lenient {
+				fmt.Println("warning (VERIF_LENIENT): skipping rest of contract file:", err)
+				continue
+			}
 			return nil, err
 		}
 	}
